@@ -441,7 +441,8 @@ def edits(spec: Dict[str, Any], r: random.Random) -> List[Dict[str, Any]]:
         inv = {old: j for j, old in enumerate(perm)}
         tt["refs"] = [tt["refs"][o] for o in perm]
         tt["args"] = [["ref", inv[a[1]]] + a[2:] if a[0] == "ref" else a for a in tt["args"]]
-        add("X2-order-of-references-field", s, NOCLAIM, NOCLAIM, perm)
+        # same executable, same arguments after replacement, same files through the same methods => same hash
+        add("X2-order-of-references-field", s, EQUAL, EQUAL, perm)
     # ---------------- missing input -> no strong hash
     if drefs:
         s = copy.deepcopy(spec)
